@@ -292,9 +292,19 @@ def _cancel_sites(ctx: Any, attr: str, cls_full: str) -> List[Tuple[FuncInfo, as
             me = f.params[0] if f.params else 'self'
             for n in walk_local_ordered(f.node):
                 if isinstance(n, ast.Call) and call_name(n) == 'cancel' and isinstance(n.func, ast.Attribute):
-                    # on the attribute itself, or on a local that names it (`timer = self._cleanup_timer; timer.cancel()`)
-                    if any(self_attr(x, me) == attr for x in ast.walk(_xp_cs(f, n.func.value))):
+                    # on the attribute itself, or on a local that names it (`timer = self._cleanup_timer; timer.cancel()`) --
+                    # provided the local is not a stale snapshot: nothing between its binding and the cancel gives the event
+                    # loop a turn (an await there lets the callback re-arm, and the handle cancelled is then the old one)
+                    if any(self_attr(x, me) == attr for x in ast.walk(n.func.value)):
                         out.append((f, n))
+                    elif isinstance(n.func.value, ast.Name) and any(self_attr(x, me) == attr for x in ast.walk(_xp_cs(f, n.func.value))):
+                        cfg_c = cfg_of(f.node)
+                        binds = [b for b in cfg_c.nodes if b.kind == 'stmt' and isinstance(b.ast, ast.Assign) and norm(b.ast.targets[0]) == n.func.value.id]
+                        host = [h for h in cfg_c.nodes if any(c_ is n for c_ in h.calls())]
+                        yields = [y for y in cfg_c.nodes if y.ast is not None and any(isinstance(e_, (ast.Await, ast.Yield, ast.YieldFrom)) for x_ in y.exprs() for e_ in ast.walk(x_))]
+                        stale = any(cfg_c.can_reach(b, y) and cfg_c.can_reach(y, h) and y is not b for b in binds for h in host for y in yields)
+                        if binds and host and not stale:
+                            out.append((f, n))
     return out
 
 
